@@ -520,7 +520,10 @@ theorem call_correct_sub {ms : MacroSem} {csubs : CSubEnv} {subs : SubEnv} {env 
     (hcsub : lookupS name csubs = some sub)
     (hCbody : ∃ F, ∀ f, F ≤ f →
       execCHs ms csubs f sub.body { σ with locals := (sub.params.map (·.1)).zip vs } = .ok σr)
-    (hCret : lookupS "$ret" σr.locals = some (.bv ret.width xC))
+    -- the C body leaves its returned value (extended to 64 bit by its own signedness) in `$ret`; the call converts it to the
+    -- routine's declared return type
+    {vr : Val} (hCret : lookupS "$ret" σr.locals = some vr)
+    (hCconv : convC { signed := false, width := 64 } sub.ret vr = .ok (.bv ret.width xC))
     (hval : convBits ⟨ret.signed, 64⟩ ret r = xC)
     (hnew : σb.new = σr.new) (hwr : σb.written = σr.written) (hmem : σb.mem = σr.mem) (hst : σb.stores = σr.stores) :
     ∃ (P : Pend) (rest : List Pend) (σ' σC : MState),
@@ -529,7 +532,7 @@ theorem call_correct_sub {ms : MacroSem} {csubs : CSubEnv} {subs : SubEnv} {env 
       (∃ F, ∀ f, F ≤ f → execIL ms subs f (.seqn [P.exec, P.setTmp]) σ = .ok σ') ∧
       Sim ms σ' ce ret (.bv ret.width xC) ∧
       CallPost subs fB body P.tmp σ σC σ' :=
-  call_sim_sub hcfg hc hp hargs hvs hsub hbody hret hcsub hCbody hCret hval hnew hwr hmem hst
+  call_sim_sub hcfg hc hp hargs hvs hsub hbody hret hcsub hCbody hCret hCconv hval hnew hwr hmem hst
 
 /-- a generated routine `uint32_t id32(uint32_t x) { return x; }`: C side and compiled body -/
 def idCSubs : CSubEnv := [("id32", { params := [("x", u32)], ret := u32, body := [.ret (.var "x" u32)] })]
@@ -560,7 +563,7 @@ theorem id32_call_correct :
   let σc : MState := { σ0 with locals := [("x", .bv 32 0x00010000)] }
   have hCbody : ∃ F, ∀ f, F ≤ f → execCHs noMacros idCSubs f [.ret (.var "x" u32)]
       { σ0 with locals := ([("x", u32)].map (·.1)).zip [.bv 32 0x00010000] } =
-      .ok { σc with locals := setLocal σc.locals "$ret" (.bv 32 0x00010000) } := by
+      .ok { σc with locals := setLocal σc.locals "$ret" (.bv 64 0x00010000) } := by
     refine ⟨3, fun f hf => ?_⟩
     obtain ⟨k, rfl⟩ : ∃ k, f = k + 3 := ⟨f - 3, by omega⟩
     rw [execCHs, execCH, evalCH]
@@ -569,7 +572,7 @@ theorem id32_call_correct :
     call_correct_sub (ms := noMacros) (csubs := idCSubs) (subs := idSubs) (σ := σ0) (ret := u32)
       (xC := 0x00010000) rfl hc (by decide)
       (argsOK_var (t := u32) (x := 0x00010000) (n := "a") (by decide) ArgsOK.nil)
-      rfl rfl hbody hret rfl hCbody (by decide +kernel) (by decide +kernel)
+      rfl rfl hbody hret rfl hCbody (vr := .bv 64 0x00010000) (by decide +kernel) (by rfl) (by decide +kernel)
       (funext fun k => (fr.regs k (hregs k)).1) (funext fun k => (fr.regs k (hregs k)).2)
       (fr.mem hmem).1 (fr.mem hmem).2
   exact ⟨_, _, P, rest, σ', σC, hc, h1, h2, h3, h4⟩
